@@ -188,3 +188,14 @@ Proof.
     induction xs as [|x xs IHx]; intros log U; cbn [fold_left]; [exact U|]. apply IHx. apply rec1_unique. exact U.
   - exact U.
 Qed.
+
+(** attempts with blank ids (the dispatcher never sets one: the store generates it) are all accepted, in order *)
+Lemma fold_rec1_blank_ids : forall xs log,
+  Forall (fun a => a_id a = 0%N) xs -> fold_left rec1 xs log = log ++ map norm xs.
+Proof.
+  induction xs as [|x xs IH]; intros log H; cbn [fold_left map].
+  - now rewrite app_nil_r.
+  - inversion H as [|y ys Hx Hxs]; subst.
+    rewrite IH by exact Hxs. unfold rec1, record, dup_id. rewrite Hx. cbn [N.eqb negb andb fst].
+    now rewrite <- app_assoc.
+Qed.
